@@ -134,18 +134,22 @@ def throttle_with_mapper_(
 
             def on_next(x: Any) -> None:
                 nonlocal has_value
-                if has_value and _id[0] == current_id:
+                deliver = has_value and _id[0] == current_id
+                # Reset before delivering: the observer may push a new element into
+                # the source from inside on_next, which must stay pending.
+                has_value = False
+                if deliver:
                     observer.on_next(value)
 
-                has_value = False
                 d.dispose()
 
             def on_completed() -> None:
                 nonlocal has_value
-                if has_value and _id[0] == current_id:
+                deliver = has_value and _id[0] == current_id
+                has_value = False
+                if deliver:
                     observer.on_next(value)
 
-                has_value = False
                 d.dispose()
 
             d.disposable = throttle.subscribe(
